@@ -48,6 +48,12 @@ func c01Gen(c *vfCtx, emit func(c01Case)) {
 	for _, b := range bodies {
 		emit(c01Case{Family: "A1", Tests: []vfTestExec{{Name: "TestA", Calls: []vfCall{snap(b)}}}})
 	}
+	// longer bodies (3..5 lines) over a three-letter alphabet: runs of terminator lines, with a header line after them
+	for _, b := range vfBodies([]string{"---", "a", "[TestA - 2]"}, 5, 0) {
+		if strings.Count(b, "\n") >= 2 {
+			emit(c01Case{Family: "A-runs", Tests: []vfTestExec{{Name: "TestA", Calls: []vfCall{snap(b), snap("a")}}}})
+		}
+	}
 	for _, bl := range vfBoundaryLines() {
 		emit(c01Case{Family: "A-boundary", Tests: []vfTestExec{{Name: "TestA", Calls: []vfCall{snap("head\n" + bl + "\ntail"), snap("a")}}}})
 	}
